@@ -18,7 +18,8 @@ THEOREMS = ['C04_max_pattern', 'C04_complement_bits', 'C04_eval_pattern_den', 'C
             'C04_complementary_patterns_negated_functions', 'C04_ConeEval_functional', 'C04_cone_eval_sound',
             'C04_ConeEval_Eval', 'C04_check_step_sound', 'C04_check_step_map_sound_Eval',
             'C04_care_set_substitution', 'C04_care_set_substitution_outputs', 'C04_check_implies_equivalence',
-            'C04_example_care_set_replacement', 'C04_validator_substitution', 'C04_accepted_step_preserves_outputs', 'C04_merge_substitution', 'C04_care_covers_sound',
+            'C04_example_care_set_replacement', 'C04_care_set_substitution_truth_table',
+            'C04_example_care_set_replacement_truth_table', 'C04_validator_substitution', 'C04_accepted_step_preserves_outputs', 'C04_merge_substitution', 'C04_care_covers_sound',
             'C04_cex_surplus_operand', 'C04_example_ternary_and', 'C04_cex_missing_node', 'C04_example_cone', 'C04_example_simulation', 'C04_example_step_accepted', 'C04_example_step_rejected',
             'C04_example_care_set_step', 'C04_example_merge']
 PARTIAL = {
@@ -42,7 +43,9 @@ LEVEL_TEXT = ('translation validation with a verified validator, plus proof of t
               'for the function replace_subcircuit (C04_care_set_substitution: whenever replace_subcircuit c sub imap omap '
               'returns c\' and the executable cone check accepts host cone vs. replacement on all 2^k leaf vectors or on a '
               'care set that care_covers accepts, every surviving gate, in particular every circuit output, has in c\' the '
-              'value it had in c under every Boolean primary-input vector; obtained by combining the validator facts with '
+              'value it had in c under every Boolean primary-input vector, and - when the replacement has accepted arities and '
+              'no primary input is removed - evaluate on every Boolean vector and get_truth_table return equal results '
+              '(C04_care_set_substitution_truth_table); obtained by combining the validator facts with '
               'the semantic theorem of replace_subcircuit of C19); on recorded states check_step / check_subst are '
               'sound (an accepted step preserves the value of every surviving gate and of every circuit output under '
               'every assignment whose leaf vector was compared); check_merge is sound for the all-outputs-trivial branch. '
